@@ -170,7 +170,7 @@ func verifH_C08_unknown() {
 	a.Broadcast(hdr, []any{"ev"}, verifOpts(0))
 	id := a.packets[0].ID
 	a.PersistSession(&SessionToPersist{SID: "sid1", PID: "pid1", Rooms: []Room{"sid1"}})
-	which := verifChoose(0, 2)
+	which := verifChoose(0, 4)
 	switch which {
 	case 0:
 		_, ok := a.RestoreSession("other", id)
@@ -178,6 +178,17 @@ func verifH_C08_unknown() {
 	case 1:
 		_, ok := a.RestoreSession("pid1", id+"x")
 		verifAssert(!ok, "unknown offset is not recovered")
+	case 3:
+		// a client that disconnected before its first packet has no offset to present: clean fallback, not a replay
+		// of the whole log
+		_, ok := a.RestoreSession("pid1", "")
+		verifAssert(!ok, "an empty offset is not recovered")
+	case 4:
+		// ANY offset string of 1..2 bytes that is not the id of a logged packet
+		off := verifString(verifChoose(1, 2))
+		verifAssume(off != id)
+		_, ok := a.RestoreSession("pid1", off)
+		verifAssert(!ok, "an offset that is not in the log is not recovered")
 	case 2:
 		// packets that are not plain events are not logged
 		id7 := uint64(7)
